@@ -119,7 +119,7 @@ func subFieldsRead(fns []*ssa.Function, fv *types.Var) map[string]types.Type {
 				case *ssa.FieldAddr:
 					if inner, ok := x.X.(*ssa.FieldAddr); ok && fieldVarOf(inner) == fv {
 						f := st.Field(x.Field)
-						out[f.Name()] = f.Type()
+						out[fldName(f)] = f.Type()
 					}
 					// ch := s.change; ... ch.routes : a local copy of the struct
 					if al, ok := x.X.(*ssa.Alloc); ok {
@@ -128,7 +128,7 @@ func subFieldsRead(fns []*ssa.Function, fv *types.Var) map[string]types.Type {
 								if u, ok := rt.(*ssa.UnOp); ok && u.Op == token.MUL {
 									if fa, ok := u.X.(*ssa.FieldAddr); ok && fieldVarOf(fa) == fv {
 										f := st.Field(x.Field)
-										out[f.Name()] = f.Type()
+										out[fldName(f)] = f.Type()
 									}
 								}
 							}
@@ -140,7 +140,7 @@ func subFieldsRead(fns []*ssa.Function, fv *types.Var) map[string]types.Type {
 						if u, ok := rt.(*ssa.UnOp); ok && u.Op == token.MUL {
 							if fa, ok := u.X.(*ssa.FieldAddr); ok && fieldVarOf(fa) == fv {
 								f := st.Field(x.Field)
-								out[f.Name()] = f.Type()
+								out[fldName(f)] = f.Type()
 							}
 						}
 					}
@@ -191,9 +191,9 @@ func ruleChangeStateAgreement(p *Prog, m *Model, r *Report, pkg string) {
 		r.add("R-HC", "change-fields|"+tn, "", fmt.Sprintf("%s: change fields (stored by GetChanges, loaded by ApplyCommands): %v", tn, varNames(cf)), len(cf) >= 1,
 			"no state flows from GetChanges to ApplyCommands: anchor lost")
 		for _, f := range cf {
-			r.add("R-HC", "haschanges-reads|"+tn+"|"+f.Name(), p.pos(m.implMethod(t, "HasChanges").Pos()), "HasChanges reads change field "+f.Name(), loadedH[f],
+			r.add("R-HC", "haschanges-reads|"+tn+"|"+fldName(f), p.pos(m.implMethod(t, "HasChanges").Pos()), "HasChanges reads change field "+fldName(f), loadedH[f],
 				"approve skips ApplyCommands although changes of this kind exist")
-			r.add("R-HC", "showchanges-reads|"+tn+"|"+f.Name(), p.pos(m.implMethod(t, "ShowChanges").Pos()), "ShowChanges reads change field "+f.Name(), loadedS[f],
+			r.add("R-HC", "showchanges-reads|"+tn+"|"+fldName(f), p.pos(m.implMethod(t, "ShowChanges").Pos()), "ShowChanges reads change field "+fldName(f), loadedS[f],
 				"compare does not show changes of this kind")
 			if _, isStruct := f.Type().Underlying().(*types.Struct); isStruct {
 				subA := subFieldsRead(app, f)
@@ -211,14 +211,14 @@ func ruleChangeStateAgreement(p *Prog, m *Model, r *Report, pkg string) {
 					}
 					nt++
 					_, okH := subH[n]
-					r.add("R-HC", "haschanges-reads-trigger|"+tn+"|"+f.Name()+"."+n, p.pos(m.implMethod(t, "HasChanges").Pos()),
-						"HasChanges reads trigger sub-field "+f.Name()+"."+n+" that ApplyCommands acts on", okH,
+					r.add("R-HC", "haschanges-reads-trigger|"+tn+"|"+fldName(f)+"."+n, p.pos(m.implMethod(t, "HasChanges").Pos()),
+						"HasChanges reads trigger sub-field "+fldName(f)+"."+n+" that ApplyCommands acts on", okH,
 						"approve reports 'no changes' and skips this part of the plan although ApplyCommands would act on it")
 					_, okS := subS[n]
-					r.add("R-HC", "showchanges-reads-trigger|"+tn+"|"+f.Name()+"."+n, p.pos(m.implMethod(t, "ShowChanges").Pos()),
-						"ShowChanges reads trigger sub-field "+f.Name()+"."+n, okS, "compare does not show this part of the plan")
+					r.add("R-HC", "showchanges-reads-trigger|"+tn+"|"+fldName(f)+"."+n, p.pos(m.implMethod(t, "ShowChanges").Pos()),
+						"ShowChanges reads trigger sub-field "+fldName(f)+"."+n, okS, "compare does not show this part of the plan")
 				}
-				r.floor("R-HC", "trigger sub-fields of "+tn+"."+f.Name(), nt, 2)
+				r.floor("R-HC", "trigger sub-fields of "+tn+"."+fldName(f), nt, 2)
 			}
 		}
 	}
@@ -410,6 +410,8 @@ func checkConv(p *Prog, r *Report, pkg, prop string) {
 		ruleComparatorsSymmetric(p, r, map[string]bool{pkg: true}, map[string]int{"panos": 9, "nsx": 1}[pkg])
 		ruleSides(p, r, "R-SIDE", prop, map[string]bool{pkg: true}, map[string]int{"panos": 17, "nsx": 8}[pkg])
 	}
+	ruleBufferReuse(p, r, "R-REUSE", map[string]bool{pkg: true})
+	ruleMemo(p, r, "R-MEMO", prop, map[string]bool{pkg: true}, map[string]int{"panos": 4, "nsx": 3}[pkg])
 	ruleMustCalls(p, r, "R-PH", prop)
 	ruleCommandsOnlyGrow(p, r, pkg)
 	ruleStickyState(p, r, prop, map[string]bool{pkg: true}, map[string]int{"panos": 1, "nsx": 1, "linux": 2}[pkg])
@@ -446,6 +448,7 @@ func checkC18(p *Prog, r *Report) {
 	ruleMergeOrder(p, r)
 	ruleEveryLineKept(p, r)
 	ruleStaleIndex(p, r, map[string]bool{"cisco": true, "nsx": true, "panos": true, "linux": true})
+	ruleBufferReuse(p, r, "R-REUSE", map[string]bool{"cisco": true, "nsx": true, "panos": true, "linux": true, "asa": true, "ios": true})
 	// parser state of the raw-file markers ([APPEND] applies from the marker to the end of its table /
 	// of the file): replaced exactly under the audited conditions
 	ruleStickyState(p, r, "C18", map[string]bool{"cisco": true, "linux": true}, 6)
